@@ -32,9 +32,11 @@ package cleaner
 //@   props C12
 //@   loop 0 invariant lock-held-and-monitor-invariant: held(i.lock) == 1 && (i.wakeup != nil ==> i.useCount == 0) && i == old(i)
 //@   modifies IdleInvoker.useCount, IdleInvoker.wakeup, closed
+//@   trustframe -- rely: the cleaner callback (an arbitrary function value) does not write state of the callers of Acquire
 //@   ghostset acquired[i] = old(acquired(i)) + 1 if r0 == nil
 
 //@ func (*IdleInvoker).Release
 //@   props C12
 //@   modifies IdleInvoker.useCount, IdleInvoker.wakeup, closed
+//@   trustframe -- rely: the cleaner callback (an arbitrary function value) does not write state of the callers of Release
 //@   ghostset acquired[i] = old(acquired(i)) - 1
